@@ -3,15 +3,21 @@ package main
 import (
 	"bytes"
 	"fmt"
+	"strings"
+	"time"
 
 	"github.com/yuin/goldmark"
 	"github.com/yuin/goldmark/extension"
+	"github.com/yuin/goldmark/parser"
 )
 
 func main() {
-	for _, src := range []string{"[^a]: [^b]: x\n\nt[^a] u[^b]\n", "[^a]: o\n\n    [^b]: x\n\nt[^a] u[^b]\n", "t[^b]\n\n[^a]: > [^b]: x\n"} {
+	md := goldmark.New(goldmark.WithExtensions(extension.GFM), goldmark.WithParserOptions(parser.WithAutoHeadingID(), parser.WithAttribute()))
+	for _, n := range []int{1024, 2048, 4099} {
+		src := []byte(strings.Repeat("# h\n\n", n))
+		t0 := time.Now()
 		var b bytes.Buffer
-		goldmark.New(goldmark.WithExtensions(extension.Footnote)).Convert([]byte(src), &b)
-		fmt.Printf("%q\n -> %q\n", src, b.String())
+		md.Convert(src, &b)
+		fmt.Println(n, time.Since(t0))
 	}
 }
